@@ -394,6 +394,33 @@ theorem good_enum (syms : List Name) (sel : Nat) (e : Bool) (hw : wfTy (.enum sy
     simpa [strip] using hconv
 
 
+/-- formatting with and without the trailing `decorate` differ by exactly that decorator. -/
+theorem fmt_deco_split (fst : FState) (t : Ty) (v : Val) (pi : Bool) (hp : plainTy t = true)
+    (hv : wfVal t v = true) (hn : v.isNull = false) (hb : bareEmpty v = false) :
+    fmtValue fst t v false pi true false =
+      ((fmtValue fst t v false pi false false).1, (fmtValue fst t v false pi false false).2.1,
+        (fmtValue fst t v false pi false false).2.2 ++ decoP t false) := by
+  cases v with
+  | null => simp [Val.isNull] at hn
+  | prim text => cases t <;> simp_all [wfVal, fmtValue, finish, decorateM_plain]
+  | typeval ty => cases t <;> simp_all [wfVal, fmtValue, finish, decorateM_plain]
+  | enum sel => cases t <;> simp_all [wfVal, fmtValue, finish, decorateM_plain]
+  | record vs => cases t <;> simp_all [wfVal, fmtValue, finish, decorateM_plain]
+  | array vs =>
+    cases t <;> simp_all [wfVal]
+    cases vs <;> simp_all [bareEmpty, fmtValue, finish, decorateM_plain]
+  | set vs =>
+    cases t <;> simp_all [wfVal]
+    cases vs <;> simp_all [bareEmpty, fmtValue, finish, decorateM_plain]
+  | map es =>
+    cases t <;> simp_all [wfVal]
+    cases es <;> simp_all [bareEmpty, fmtValue, finish, decorateM_plain]
+  | union tag inner => cases t <;> simp_all [wfVal, fmtValue, finish, decorateM_plain]
+  | error v' => cases t <;> simp_all [wfVal, plainTy, fmtValue, finish, decorateM_plain]
+  | named v' => cases t <;> simp_all [wfVal, plainTy]
+
+
+
 /-! ### lists of values -/
 
 def tvsOf : Fields → Vals → List TV
